@@ -1,9 +1,131 @@
 package vapp
 
+import "fmt"
+
+var GovKinds = []string{"PROP_CREATE", "PROP_CREATE", "PROP_FUND", "PROP_FUND", "PROP_FUND", "PROP_VOTE", "PROP_VOTE", "PROP_VOTE", "PROP_CANCEL", "PROP_WITHDRAW", "PROP_WITHDRAW", "PROP_EXPIRE", "PROP_FINALIZE", "SEND", "STAKE", "UNSTAKE"}
+var OnsKinds = []string{"DOM_CREATE", "DOM_CREATE", "DOM_CREATE_SUB", "DOM_UPDATE", "DOM_SELL", "DOM_SELL", "DOM_PURCHASE", "DOM_PURCHASE", "DOM_SEND", "DOM_RENEW", "DOM_DELETE_SUB", "SEND"}
+
+var StakeKinds = []string{"STAKE", "STAKE", "UNSTAKE", "UNSTAKE", "UNSTAKE", "WITHDRAW", "WITHDRAW", "SEND"}
+
+var propNames = []string{"p1", "p2", "p3"}
+var domNames = []string{"alpha.ol", "beta.ol", "gamma.ol"}
+var subNames = []string{"x.alpha.ol", "y.alpha.ol", "x.beta.ol"}
+
+// height estimate of the block being generated (set by Mixed)
 func (g *Gen) txExt(kind string, hostile bool) STx {
-	panic("unknown kind " + kind)
+	t := TxReq{Kind: kind}
+	po := g.G.Proposal
+	who := func() string {
+		if g.R.Intn(4) == 0 {
+			return "s" + g.pick(g.vals)
+		}
+		return g.pick(g.accts)
+	}
+	switch kind {
+	case "PROP_CREATE":
+		fund := g.curH + int64(g.rng(1, int(po.FundingDeadline)))
+		if g.R.Intn(8) == 0 {
+			fund = g.curH - int64(g.rng(0, 2))
+		}
+		typ := []string{"config", "code", "general"}[g.R.Intn(3)]
+		upd := ""
+		if typ == "config" {
+			upd = []string{"stakingOptions.maturityTime:3", "stakingOptions.topValidatorCount:3", "onsOptions.perBlockFees:20", "feeOption.minFeeDecimal:2",
+				"propOptions.general.passPercentage:60", "stakingOptions.minSelfDelegationAmount:2", "evidenceOptions.minVotesRequired:1", "bogus.key:1"}[g.R.Intn(8)]
+		}
+		goal, pass, vdl := po.FundingGoal, int64(po.PassPct), fund+po.VotingDeadline
+		if g.R.Intn(10) == 0 {
+			goal++
+		}
+		if g.R.Intn(10) == 0 {
+			vdl++
+		}
+		t.A = A{"id": g.pick(propNames), "type": typ, "by": who(), "amt": g.amount(int(po.InitialFunding), int(po.FundingGoal)-1, hostile),
+			"fundDL": fund, "goal": goal, "voteDL": vdl, "pass": pass, "update": upd}
+	case "PROP_FUND":
+		lo, hi := 100, int(po.FundingGoal)
+		t.A = A{"id": g.pick(propNames), "by": who(), "amt": g.amount(lo, hi, hostile)}
+	case "PROP_VOTE":
+		v := g.pick(g.vals)
+		by := "s" + v
+		if g.R.Intn(6) == 0 {
+			by = g.pick(g.accts)
+		}
+		t.A = A{"id": g.pick(propNames), "by": by, "v": v, "op": g.rng(0, 4)}
+	case "PROP_CANCEL":
+		t.A = A{"id": g.pick(propNames), "by": who()}
+	case "PROP_WITHDRAW":
+		by := who()
+		to := by
+		if g.R.Intn(3) == 0 {
+			to = who()
+		}
+		t.A = A{"id": g.pick(propNames), "by": by, "to": to, "amt": g.amount(100, 3000, hostile)}
+	case "PROP_EXPIRE", "PROP_FINALIZE":
+		by := g.pick(g.vals)
+		if g.R.Intn(3) == 0 {
+			by = g.pick(g.accts)
+		}
+		t.A = A{"id": g.pick(propNames), "by": by}
+	case "DOM_CREATE":
+		o := who()
+		t.A = A{"owner": o, "benef": who(), "name": g.pick(domNames), "uri": "http://example.org", "amt": g.amount(int(g.G.Ons.Base), int(g.G.Ons.Base)+200, hostile)}
+	case "DOM_CREATE_SUB":
+		t.Kind = "DOM_CREATE"
+		o := who()
+		t.A = A{"owner": o, "benef": o, "name": g.pick(subNames), "uri": "", "amt": g.amount(int(g.G.Ons.Base), int(g.G.Ons.Base)+100, hostile)}
+	case "DOM_UPDATE":
+		t.A = A{"owner": who(), "benef": who(), "name": g.pick(append(domNames, subNames...)), "active": g.rng(0, 1), "uri": ""}
+	case "DOM_SELL":
+		t.A = A{"owner": who(), "name": g.pick(domNames), "amt": g.amount(100, 3000, hostile), "cancel": boolInt(g.R.Intn(4) == 0)}
+	case "DOM_PURCHASE":
+		b := who()
+		t.A = A{"buyer": b, "benef": b, "name": g.pick(domNames), "amt": g.amount(100, 4000, hostile)}
+	case "DOM_SEND":
+		t.A = A{"from": who(), "name": g.pick(append(domNames, subNames...)), "amt": g.amount(1, 2000, hostile)}
+	case "DOM_RENEW":
+		t.A = A{"owner": who(), "name": g.pick(domNames), "amt": g.amount(10, 300, hostile)}
+	case "DOM_DELETE_SUB":
+		t.A = A{"owner": who(), "name": g.pick(subNames)}
+	default:
+		return g.txEth(kind, hostile)
+	}
+	return g.finish(t, hostile)
 }
 
-func familyExt(family, id string, g *Gen, blocks, maxTx int) *Scenario { return nil }
+func boolInt(b bool) int {
+	if b {
+		return 1
+	}
+	return 0
+}
 
-func familyKindsExt(family string) []string { return nil }
+func familyExt(family, id string, g *Gen, blocks, maxTx int) *Scenario {
+	switch family {
+	case "gov":
+		return g.Mixed(id, blocks, maxTx, GovKinds)
+	case "ons":
+		return g.Mixed(id, blocks, maxTx, OnsKinds)
+	case "stake":
+		g.Hostile = 0.2
+		return g.Mixed(id, blocks, maxTx+2, StakeKinds)
+	case "failing":
+		g.Hostile, g.Direct = 0.8, 1.0
+		return g.Mixed(id, blocks, maxTx, BaseKinds)
+	}
+	return familyEth(family, id, g, blocks, maxTx)
+}
+
+func familyKindsExt(family string) []string {
+	switch family {
+	case "stake":
+		return StakeKinds
+	case "gov":
+		return GovKinds
+	case "ons":
+		return OnsKinds
+	}
+	return nil
+}
+
+var _ = fmt.Sprint
